@@ -69,6 +69,30 @@ CHECKS = {
          'In-process through click.testing.CliRunner. Known finding K02 (--framework-element raises AttributeError).', '3/C20'),
 }
 
+# cases beyond the small bound (added after the adversarial fourth wave of seeded changes; DESIGN.md section 8.7): fixed, enumerated menus like everything else
+SCALE = {
+ 'C01': 'Beyond the small bound: chiral sheet patterns of 31 / 65 / 72 atoms next to their mirror image (which differs in one atom; the oracle also bounds the rms deviation over 4-atom subsets), custom element names longer than two characters with decoys that agree in the first two, a 32783-atom structure in three atom orders.',
+ 'C02': 'Beyond the small bound: the same sheet / element-name cases against the reference matcher, and a 32783-atom structure (copies stored after / around 32768 filler atoms) against the planted occurrences.',
+ 'C03': 'Beyond the small bound: the 32783-atom crystal in three atom orders; an 80 A wide pattern handed over twisted about its own axis by 12 angles from 0.0009 to 180.055 degrees.',
+ 'C04': 'Beyond the small bound: both patterns written 9000 A from the origin (all pairs); a 32783-atom structure and a 31-atom chiral pattern (matches compared with the planted occurrences).',
+ 'C05': 'Beyond the small bound: patterns written 9000 A from the origin; 32783 atoms; 31-atom chiral sheet next to its mirror image (every replaced match must itself be a rigid image within sqrt(3) atol over every 4-atom subset).',
+ 'C06': 'Beyond the small bound (depth 1): the chain stored behind 1100 bonded filler atoms (term rows beyond 1024) and behind 900 atoms interleaved with 30 lone O atoms (one call removes 32 atoms spread over 900 indices).',
+ 'C07': 'Beyond the small bound: 216 / 343 non-overlapping single-atom matches; 32771 atoms with a C-N-C chain in the interior / through a face (occurrences known by construction).',
+ 'C08': 'Beyond the small bound: tolerances that are needed to match (atol 0.3 with copies displaced by 0.77 x 0.3/c, round trip judged with the reference matcher on the intermediate structure; real linker at atol 0.2 then searched again); 32783 atoms: identity and A->B->A.',
+ 'C09': 'Beyond the small bound (depth 2): chains at coordinates beyond 1000 A and below -100 A.',
+ 'C10': 'Beyond the small bound: fully bonded chains of 5000 and 9000 atoms (term rows 4095 / 8191, deletions of 256-300 atoms).',
+ 'C11': 'Beyond the small bound: 10- and 40-atom fragments with 7 / 14 atoms declared identical, 1300 existing bonds (re-defined bonds beyond row 1024), atom indices beyond 100000.',
+ 'C12': 'Beyond the small bound: factors (48,1,1) (49,1,1) (1,2,49) (1,98,1) (2,1,103) (107,1,1) (1,1,64) (7,7,1); a 17000-atom structure with terms on its last atoms replicated to 34000.',
+ 'C13': 'Beyond the small bound: 131-character coefficient strings, 12 atom types, coordinates of 4-5 digits, non-ASCII labels / paths, names with two dots.',
+ 'C14': 'Beyond the small bound: 9, 10, 11, 12, 100, 117, 256, 257, 300, 1000 atom types in one call / one file / one write-read cycle, in table and reversed order, with and without one non-atomic mass.',
+ 'C15': 'Beyond the small bound: extra-column values of 56 characters; 120 Cu / 1003 C atoms (labels Cu100, C1000) with terms on the late atoms.',
+ 'C16': 'Beyond the small bound: chain molecules of 200-1000 atoms (199-1001 bonds) in shuffled document order with 5 id schemes (ids of 16, 17 and 20-33 characters, long common prefixes).',
+ 'C17': 'Beyond the small bound: cells and coordinates of 1e7 ... 4e8 A (5 pairs x 4 distances x 7 placements x 5 cells); 1100-1200 atoms (shuffled lattice, clouds) against a vectorised minimum-image reference.',
+ 'C18': 'Call histories: every ordered pair evaluated in 4 sequences of 4-6 calls whose bond orders lie 0.01-0.06 apart (explicit and through rules); every answer must be the formula of its own call.',
+ 'C19': 'Beyond the small bound: 400 four-atom chains with more than 380 distinct dihedral types and undefined (sp) torsions first seen at positions 50, 300, 340, 399; a six-ring with 160 diatomics and a sparse exclusion; a 300-atom branched chain.',
+ 'C20': 'Beyond the small bound: a 298-atom structure with the count-dependent options; input names with two dots; --mic 5.0 next to --replicate (order matters) and 4.5 (2 x mic equals the cell length) alone.',
+}
+
 NOT_YET = {}
 
 
@@ -79,6 +103,7 @@ def main():
         pid = p['id']
         if pid in CHECKS and os.path.exists(os.path.join(VERIF, 'mc', 'checks', pid + '.py')):
             eng, tech, text, note, ref = CHECKS[pid]
+            text = text + ' ' + SCALE[pid] if pid in SCALE else text
             checks.append(dict(property_id=pid, quick_cmd='./check %s quick' % pid, thorough_cmd='./check %s thorough' % pid,
                                evidence_file='/verif/evidence/%s.json' % pid, replay_cmd_template='./check %s --replay {path}' % pid,
                                engine=eng, technique=tech,
